@@ -7,6 +7,10 @@ THEOREMS = [
     "Cog.Sem.C01_codec_roundtrip_partial", "Cog.Sem.C01_object_roundtrip_partial",
     "Cog.Sem.C01_decode_defined_partial", "Cog.Sem.C01_codec_roundtrip_any_fuel_partial", "Cog.Sem.den_mono_le", "Cog.Sem.C01_counterexample_empty_optional_array",
     "Cog.Sem.C01_counterexample_unknown_discriminator", "Cog.Sem.roundtrip_core",
+    # (c) pass widening on the plain fragment, through the regenerated Go chain (c01-widening builder)
+    "Cog.Sem.C01_pass_widening_plain_partial", "Cog.Sem.C01_source_roundtrip_plain_partial",
+    "Cog.Sem.C01_source_roundtrip_type_plain_partial", "Cog.Sem.C01_chain_keeps_plain",
+    "Cog.Sem.Src.widen_chain", "Cog.Sem.Src.nr_widen", "Cog.Sem.Src.PrefixEnumValues_den",
 ]
 
 
@@ -46,16 +50,122 @@ def reconcile(req, impl, model):
     return impl, model
 
 
+# ---- BEGIN pass widening tie (c01-src stream; owner: c01-widening builder) -------------------------
+# den-exclusions mirrored by srcDen: a source-valid document missing from srcDen for one of these
+# reasons is outside the proved fragment by construction, not a gap of the source-side model
+SRC_EXCLUSIONS = ("empty-optional-collection", "empty-collection-behind-alias", "reference-to-constant",
+                  "array-of-uint8-is-bytes", "bytes", "any-integer-beyond-2^53", "any-duplicate-keys",
+                  "map-index-not-string", "alias-of-any", "alias-of-datetime", "constant-reference",
+                  "missing-required", "undeclared-member", "duplicate-keys")
+
+
+def pass_widening_tie(c, hb):
+    """(a) reference validator accepts ∧ Plain ⇒ srcDen (rate, reasons; converse must hold);
+       (b) Plain ∧ srcDen ⇒ den on the REAL post-chain IR (instance of C01_pass_widening_plain_partial)."""
+    quick = c.tier == "quick"
+    n, docs, faults = (150, 10, 6) if quick else (1500, 14, 8)
+    try:
+        rows = harness(hb, "c01-src", n=n, docs=docs, faults=faults, seed=c.seed, timeout=3600)
+    except (RuntimeError, subprocess.TimeoutExpired) as e:
+        c.oblige("c01-src stream runs", False, str(e)[-1500:])
+        return
+    reqs = [r[0] for r in rows if r[0] != "-"]
+    replies = drv(reqs)
+    it = iter(replies)
+    cases, case_line = {}, {}
+    st = {"documents": 0, "valid": 0, "plain_documents": 0, "plain_valid": 0, "plain_valid_in_srcDen": 0,
+          "plain_in_srcDen": 0, "plain_in_srcDen_and_den_real": 0, "nonplain_valid": 0, "nonplain_valid_in_srcDen": 0,
+          "nonplain_valid_in_srcDen_and_den_real": 0, "invalid": 0, "invalid_in_srcDen": 0, "bad_replies": 0}
+    why, whyx, notplain = {}, {}, {}
+    b_fail, unsound, m_fail = [], [], []
+    for r in rows:
+        if r[0] == "-":
+            if r[1].startswith("case "):
+                case_line[r[1].split(" ")[1]] = r[1]
+            continue
+        m = next(it)
+        if r[0].startswith("defschemas "):
+            if m != "ok":
+                st["bad_replies"] += 1
+            continue
+        if not m.startswith("plain="):
+            st["bad_replies"] += 1      # bad-json: a number that is not a multiple of 0.25
+            continue
+        d = dict(kv.split("=", 1) for kv in m.split(" "))
+        cid = r[0].split(" ")[3]
+        valid = "valid=true" in r[1]
+        if cid not in cases:
+            cases[cid] = d["plain"] == "true"
+            if d["plain"] != "true":
+                notplain[d["notplain"]] = notplain.get(d["notplain"], 0) + 1
+        st["documents"] += 1
+        st["valid" if valid else "invalid"] += 1
+        src, den, plain = d["src"] == "true", d["den"] == "true", d["plain"] == "true"
+        if src and not valid:
+            st["invalid_in_srcDen"] += 1
+            unsound.append((r, m))
+        if plain:
+            st["plain_documents"] += 1
+            if valid:
+                st["plain_valid"] += 1
+                if src:
+                    st["plain_valid_in_srcDen"] += 1
+                else:
+                    k = d["why"].replace("absent-optional:", "")
+                    (why if k in SRC_EXCLUSIONS else whyx)[d["why"]] = (why if k in SRC_EXCLUSIONS else whyx).get(d["why"], 0) + 1
+            if src:
+                st["plain_in_srcDen"] += 1
+                if den:
+                    st["plain_in_srcDen_and_den_real"] += 1
+                else:
+                    b_fail.append((r, m))
+                if d["mden"] != "true":
+                    m_fail.append((r, m))
+        elif valid:
+            st["nonplain_valid"] += 1
+            if src:
+                st["nonplain_valid_in_srcDen"] += 1
+                if den:
+                    st["nonplain_valid_in_srcDen_and_den_real"] += 1
+    def payload(kind, broken, r, m):
+        cid = r[0].split(" ")[3]
+        return {"kind": kind, "broken": broken, "stream": "c01-src", "request": r[0], "reference_validator": r[1],
+                "driver": m, "case": case_line.get(cid, ""), "how_to_replay": "harness c01-src seed=%d n=%d docs=%d faults=%d, case %s" % (c.seed, n, docs, faults, cid)}
+    for r, m in b_fail[:3]:
+        c.violation(payload("theorem-instance-fails-on-real-passes",
+                            "C01_pass_widening_plain_partial: Plain ∧ srcDen hold on the real pre-chain IR but the document is not in `den` of the REAL post-chain IR (pass model and real pass disagree)", r, m))
+    for r, m in m_fail[:3]:
+        c.violation(payload("theorem-instance-fails-on-model",
+                            "C01_pass_widening_plain_partial evaluated by the driver on the pass MODELS' output is false", r, m), found_input=False)
+    for r, m in unsound[:3]:
+        c.violation(payload("srcDen-accepts-invalid-document",
+                            "srcDen accepts a document the schema language's own validator rejects (model of the source reading is unsound)", r, m))
+    nplain = len([1 for v in cases.values() if v])
+    c.oblige("c01-src (b): Plain ∧ srcDen ⇒ den on the REAL post-chain IR (%d documents of %d plain cases)" % (st["plain_in_srcDen"], nplain), not b_fail and not m_fail)
+    c.oblige("c01-src (a'): srcDen accepts no document the reference validator rejects (%d invalid documents)" % st["invalid"], not unsound)
+    c.oblige("c01-src is not vacuous (plain cases, documents in srcDen, fault documents)", nplain >= 10 and st["plain_in_srcDen"] >= 100 and st["invalid"] >= 100,
+             "plain cases %d, plain documents in srcDen %d, invalid documents %d" % (nplain, st["plain_in_srcDen"], st["invalid"]))
+    c.count("c01-src", len(rows), [r[0] for r in rows if r[0].startswith("srcden ") and r[0].count("(") >= 6],
+            samples=[{"stream": "c01-src", "request": r[0][:400], "impl": r[1][:200], "oracle": "ok"} for r in rows if r[0].startswith("srcden ")][:2])
+    c.cov["disagreements_checked"] += st["plain_in_srcDen"] + st["invalid"]
+    c.cov["pass_widening"] = dict(st, cases=len(cases), plain_cases=nplain, not_plain_first_construct=notplain,
+                                  plain_valid_not_in_srcDen_den_exclusions=why, plain_valid_not_in_srcDen_other=whyx,
+                                  rate_a="%d/%d" % (st["plain_valid_in_srcDen"], st["plain_valid"]),
+                                  rate_b="%d/%d" % (st["plain_in_srcDen_and_den_real"], st["plain_in_srcDen"]))
+# ---- END pass widening tie -----------------------------------------------------------------------
+
+
 def main():
     c = Check("C01")
     c.trusted = [
         "Lean 4.33 kernel; axioms per theorem in obligation_list",
-        "PROVED: codec round trip on the post-chain IR for every document of `den` (lean/Cog/Sem/Den.lean); NOT proved: parser soundness and pass widening (covered by this check's correspondence on source-valid documents only)",
+        "PROVED: codec round trip on the post-chain IR for every document of `den` (lean/Cog/Sem/Den.lean); pass widening srcDen(pre-chain) ⊆ den(post-chain) through the regenerated Go chain on the PLAIN fragment (lean/Cog/Sem/SrcDen.lean, Widen*.lean); NOT proved: parser soundness, pass widening outside the plain fragment (covered by this check's correspondence on source-valid documents only)",
+        "pass models lean/Cog/Passes/*.lean (C06) and the source-side language `srcDen`: tied by the c01-src stream (real front-end output and real post-chain IR of every case; reference validators on valid and single-fault documents)",
         "hand-written model lean/Cog/Sem/{GoVal,GoCodec}.lean of encoding/json on the generated Go types and of the two custom union (un)marshallers, tied by the c01-rows stream: real pipeline -> real `go build` -> real decode/encode of every document",
         "source side: documents are drawn from the Src grammar and checked against the schema language's own validator (santhosh-tekuri/jsonschema, kin-openapi, cuelang) before use; encoding/json, the Go toolchain and those validators are trusted",
         "numbers restricted to integers and multiples of 0.25; date-time strings treated as opaque canonical RFC 3339 text",
     ]
-    hb, err = build_go("verifharness", "harness", files=HARNESS_BASE + ["lab_*.go", "src_*.go", "c01.go"], tag="c01")
+    hb, err = build_go("verifharness", "harness", files=HARNESS_BASE + ["lab_*.go", "src_*.go", "c01.go", "c01_src.go"], tag="c01")
     c.oblige("harness builds against /repo working tree", hb is not None, err)
     c.lean_obligations(THEOREMS)
     if hb is None:
@@ -108,6 +218,7 @@ def main():
     c.cov["skipped_cases"] = skips
     c.cov["model"] = STATS
     c.cov["lab"] = [r[1] for r in rows if r[0] == "-" and r[1].startswith("stats")][:1]
+    pass_widening_tie(c, hb)   # (c) pass widening: additional obligations + evidence counts
     c.finish("cd /verif/lean && lake build Cog.Props.C01 drv && lake env lean <#print axioms of the C01 theorems>",
              "Src terms (every construct of the grammar) rendered to JSON Schema, OpenAPI and CUE, real pipeline run, generated Go compiled; per case ~30 source-valid documents (reference-validated) decoded with the standard and the strict decoder and re-encoded; oracle = the property; Lean model `godec` must predict the re-encoded JSON; non-trivial = document with >= 6 nested values")
 
